@@ -78,8 +78,14 @@ class Builder:
         c, r = self.c, self.r
         d = dict(base) if base else {}
         if c.get("ident_rate") and r.random() < c["ident_rate"]:
-            d["EDIF.identifier"] = "%s%s" % (r.choice(["a", "A", "ab", "aB", "x", "X"]),
-                                             self.uid if r.random() < 0.6 else "")
+            self.uid += 1
+            if c.get("unique_idents", True):
+                # a user-supplied identifier is taken as it is by the EDIF writer: it has to be legal and
+                # unique (ignoring case) among its siblings for the netlist to be EDIF-expressible
+                d["EDIF.identifier"] = "%s%d" % (r.choice(["a", "A", "ab", "aB", "x", "X"]), self.uid)
+            else:
+                d["EDIF.identifier"] = "%s%s" % (r.choice(["a", "A", "ab", "aB", "x", "X"]),
+                                                 self.uid if r.random() < 0.6 else "")
         if c.get("userkey_rate") and r.random() < c["userkey_rate"]:
             d["k"] = r.choice(["v", "V", "w", "vw"])
         return d or None
